@@ -134,13 +134,15 @@ PROPS['C09'] = {
 PROPS['C18'] = {
     'assumptions': [
         'function<int(int)> and unique_function<int(int)> over two payload classes (inline buffer / heap); histories of HIST_K operations over 3 wrapper slots; payload ids in [1,3].',
-        'any_sender / unique_any_sender storage and forwarding are covered by the any_sender queries (C18 any_*), default configuration (SBO for any_sender disabled upstream).',
+        'any_sender<int> / unique_any_sender<int> in the default configuration (small-buffer storage disabled upstream); wrapped test senders with symbolic channel complete inline; histories of 3 (quick) / 4 (thorough) operations.',
     ],
     'queries': [
         dict(name='function_hist_k4', kernel='C18_function.cpp', prefix='fn_', mode='seq', inline=20000, unwind=26, lower_defs=['-DHIST_K=4'], covers=[0], timeout=2400),
         dict(name='unique_function_hist_k4', kernel='C18_function.cpp', prefix='fn_', mode='seq', inline=20000, unwind=26, lower_defs=['-DHIST_K=4', '-DUNIQUE'], covers=[0], timeout=2400),
-        dict(name='any_sender_hist_k4', kernel='C18_any_sender.cpp', prefix='as_', mode='seq', inline=20000, unwind=26, lower_defs=['-DHIST_K=4'], covers=[0], timeout=3000),
-        dict(name='unique_any_sender_hist_k4', kernel='C18_any_sender.cpp', prefix='as_', mode='seq', inline=20000, unwind=26, lower_defs=['-DHIST_K=4', '-DUNIQUE'], covers=[0], timeout=3000),
+        dict(name='any_sender_hist_k3', kernel='C18_any_sender.cpp', prefix='as_', mode='seq', inline=20000, unwind=26, lower_defs=['-DHIST_K=3'], covers=[0], timeout=3000),
+        dict(name='unique_any_sender_hist_k3', kernel='C18_any_sender.cpp', prefix='as_', mode='seq', inline=20000, unwind=26, lower_defs=['-DHIST_K=3', '-DUNIQUE'], covers=[0], timeout=3000),
+        dict(name='any_sender_hist_k4', kernel='C18_any_sender.cpp', prefix='as_', mode='seq', inline=20000, unwind=26, lower_defs=['-DHIST_K=4'], covers=[0], timeout=12000, tiers=('thorough',)),
+        dict(name='unique_any_sender_hist_k4', kernel='C18_any_sender.cpp', prefix='as_', mode='seq', inline=20000, unwind=26, lower_defs=['-DHIST_K=4', '-DUNIQUE'], covers=[0], timeout=12000, tiers=('thorough',)),
         dict(name='function_hist_k5', kernel='C18_function.cpp', prefix='fn_', mode='seq', inline=20000, unwind=26, lower_defs=['-DHIST_K=5'], covers=[0], timeout=10000, tiers=('thorough',)),
     ],
 }
